@@ -464,3 +464,9 @@ def run(ctx):
              "value of the jumbo flag (0x10), as clang lays them out, equal doc/user/runtime/trace_spec.md")
     from rules import round6
     round6.check_wire_layout(ctx, "R1.11")
+    ctx.rule("R1.12", "the stream file holds nothing but this run's bytes: the stream is opened with O_TRUNC (R1.9's "
+             "evaluation of the flags) and, when streams are relocated, every successful path of move_thread_to_final "
+             "opens the destination truncating it (fopen \"w\", open with O_TRUNC) or replaces it by rename; a "
+             "destination opened without truncation keeps the tail of a longer stream left by an earlier run")
+    from rules import round8
+    round8.check_final_copy_truncates(ctx, "R1.12")
